@@ -447,3 +447,31 @@ for _id, _what in (("C13", "the path (prefix stripped or not) and query the targ
 CHECKS["C11"]["rule"] += (" Compared as well: each proxy's own access-log record for every request of the behaviour suite, the answer to a target that drops the "
                           "connection (502 and its page), and - against the model - the probes the two proxies send in the 12 s after the continuation: each "
                           "target of each service gets them on the health path and at the interval of the service's options (count within one per stream).")
+
+# Additions of rounds 5 and 6.
+CHECKS["C01"]["rule"] += " Deploy timeouts go down to 50 ms, below the shortest health-check interval."
+CHECKS["C03"]["rule"] += (" Flight kind upgrade-late: the handshake is in flight when draining begins and the target's 101 arrives half-way through the drain; the tunnel "
+                          "must be closed by the time the command returns. In a third of the cases `list` is issued while the command drains and must answer without (virtual) time passing.")
+CHECKS["C08"]["rule"] += " Health-check paths include one that needs percent-encoding on the wire (a space and a non-ASCII rune)."
+CHECKS["C09"]["rule"] += (" In a fifth of the cases a rollout target is deployed, a split set, stopped and set again before anything else; in a third a second service is in place and one more "
+                          "command on the first is refused (host conflict / dead target / dead rollout target): every target in place keeps its cadence to the end.")
+CHECKS["C10"]["rule"] += (" History layer: a quarter of the rollout deploy / set / stop steps run while the service is paused with one request per cookie value held at the pause gate; "
+                          "resumed after the command, each goes where the split in force at its release sends it.")
+CHECKS["C11"]["rule"] += (" When the last-but-one command of the first history holds the snapshot lock at its listing, the last one is issued from a second goroutine meanwhile "
+                          "and queues behind it (it must still write its own snapshot).")
+CHECKS["C12"]["rule"] += (" Every start from a crash image is watched: should the start itself write the state file, the image must describe a configuration in force at every step of "
+                          "that write as well. Kill layer: a quarter of the incarnations count their syscalls from exec, far enough to reach into a start-up that writes. "
+                          "Stop messages include ESC, BEL, DEL, VT and astral-plane runes.")
+CHECKS["C13"]["rule"] += (" A fifth of the cases have a 50 ms target timeout and a Content-Length body whose second half follows 10-400 ms after the first (delivered whole: the "
+                          "timeout bounds the wait for headers); a third start from a prior deploy with the opposite target options, half of those with a rollout deploy in between.")
+CHECKS["C14"]["rule"] += " Integration layer: prior deploy with other buffering options, optionally followed by a restart or a rollout deploy, before the deploy under test."
+CHECKS["C15"]["rule"] += (" Faults held-then-close / -reset / -garbage: the target fails 200 ms after it had the request; in a third of the cases a pause or stop begins to drain the "
+                          "target meanwhile (drain timeout 10 s): still 502 at that instant, and the command returns when the failed request ends. A quarter of the cases run on a proxy restarted from its state file.")
+CHECKS["C17"]["rule"] += (" Drain layer: as C03's additions (late 101, `list` while draining). Structural stall detection in the deploy and drain layers: a case that has stood still for 40 s of "
+                          "real time with nothing in the bubble runnable and a goroutine of the proxy queued on one of the proxy's locks (two looks, 2 s apart) is a command or request waiting "
+                          "out another command's timer - violation `stalled-on-proxy-lock`. Overlap enumeration: `remove` is among the last commands.")
+CHECKS["C18"]["rule"] += (" Operation `evict`: a pool target fails three probes; 1-3 requests per service meet the shrunken and then the regrown rotation (no panic, no lost answer).")
+CHECKS["C19"]["rule"] += " A quarter of the cases run on a proxy restarted from its state file."
+CHECKS["C20"]["rule"] += (" Decision table: --max-request-body 0 / --max-response-body 0 given explicitly. Binary layer: the proxy is killed and restarted between commands (list must still print "
+                          "the model); a third of the cases begin with a TLS root service and a sub-path service on its host (TLS column follows the root); a sixth redeploy a service while a 3 s "
+                          "request is in flight on the replaced target (--deploy-timeout 400ms --drain-timeout 10s): exit status 0 and the request completes.")
